@@ -4,6 +4,10 @@ let runs : (string * (n list -> n list)) list = [
   "EV", run_EV;
   "DEC", run_DEC;
   "AMB", run_AMB;
+  "USD", run_USD;
+  "USE", run_USE;
+  "CAD", run_CAD;
+  "CAE", run_CAE;
 ]
 let twos : (string * (n list -> n list -> n list)) list = [
   "view_C03", view_C03;
@@ -16,4 +20,16 @@ let twos : (string * (n list -> n list -> n list)) list = [
   "ok_C11_EV", ok_C11_EV;
   "view_C12", view_C12;
   "ok_C12", ok_C12;
+  "view_C04_USD", view_C04_USD;
+  "ok_C04_USD", ok_C04_USD;
+  "view_C04_CAD", view_C04_CAD;
+  "ok_C04_CAD", ok_C04_CAD;
+  "view_C09_USE", view_C09_USE;
+  "ok_C09_USE", ok_C09_USE;
+  "view_C09_USD", view_C09_USD;
+  "ok_C09_USD", ok_C09_USD;
+  "view_C08_CAE", view_C08_CAE;
+  "ok_C08_CAE", ok_C08_CAE;
+  "view_C08_CAD", view_C08_CAD;
+  "ok_C08_CAD", ok_C08_CAD;
 ]
